@@ -6,11 +6,15 @@ from vlib import core
 
 def main():
     os.makedirs(core.WORK, exist_ok=True)
-    try:
-        from translator import gen
-        gen.main([])
-    except ImportError:
-        pass
+    # regenerate every generated Lean table from /repo's current source before the first lake build
+    import glob, importlib
+    for f in sorted(glob.glob(os.path.join(core.VERIF, "translator", "gen_*.py"))):
+        mod = importlib.import_module("translator." + os.path.basename(f)[:-3])
+        if hasattr(mod, "main"):
+            try:
+                mod.main([])
+            except SystemExit:
+                pass
     r = core.lake(["build"])
     sys.stderr.write((r.stdout + r.stderr)[-3000:])
     if r.returncode != 0:
